@@ -7,7 +7,7 @@ SEQ = lambda prof, q, t: {"quick": [("seq", {"profile": prof, "count": q})],
                           "thorough": [("seq", {"profile": prof, "count": t}), ("seq", {"profile": "ALL", "count": t // 4})]}
 
 PROPS = {
-    "C01": {"suites": SEQ("C01", 1500, 60000), "design": "6/C01"},
+    "C01": {"suites": {"quick": SEQ("C01", 1500, 60000)["quick"] + [("seq", {"profile": "C20", "count": 600})], "thorough": SEQ("C01", 1500, 60000)["thorough"] + [("seq", {"profile": "C20", "count": 30000})]}, "design": "6/C01"},
     "C02": {"suites": SEQ("C02", 1500, 60000), "design": "6/C02"},
     "C05": {"suites": SEQ("C05", 1500, 60000), "design": "6/C05"},
     "C06": {"suites": SEQ("C06", 1500, 60000), "design": "6/C06"},
@@ -24,7 +24,8 @@ PROPS.update({
     "C09": {"suites": STREAM("C09", 120, 1500), "design": "6/C09", "projection": core.framing_projection()},
     "C12": {"suites": STREAM("C12", 120, 1500), "design": "6/C12", "projection": core.framing_projection(with_dump=True)},
     "C13": {"suites": STREAM("C13", 120, 1500), "design": "6/C13", "projection": core.framing_projection(with_dump=True)},
-    "C18": {"suites": STREAM("C18", 120, 1500), "design": "6/C18", "projection": core.framing_projection(with_dump=True)},
+    "C18": {"suites": {"quick": STREAM("C18", 120, 1500)["quick"] + [("server", {"count": 16})], "thorough": STREAM("C18", 120, 1500)["thorough"] + [("server", {"count": 300})]},
+            "design": "6/C18", "projection": core.framing_projection(with_dump=True)},
     "C10": {"suites": {"quick": STREAM("C10", 120, 1500)["quick"] + [("grid", {"count": 3000})],
                        "thorough": STREAM("C10", 120, 1500)["thorough"] + [("grid", {"count": 60000})]},
             "design": "6/C10", "projection": core.framing_projection()},
@@ -187,6 +188,11 @@ def run_check(prop, tier, seed, replay):
                                                                                  timeout=240 if tier == "quick" else 3000)))
             except core.HarnessHang as h:
                 hang = h
+                break
+            except core.HarnessCrash as c:
+                payload = {"kind": "harness-crash", "property": prop, "suite": c.suite, "seed": seed, "rc": c.rc,
+                           "output": c.out[-3000:], "last_lines": c.lines[-40:]}
+                problems.append(("harness", f"the harness process for suite {c.suite} exited with {c.rc}: {c.out[-200:]}", payload, False))
                 break
 
     # e/f. verdict
